@@ -15,6 +15,7 @@ from hypothesis import strategies as st
 
 from vlib import urlref, urlgrammar as G
 from vlib.core import Campaign, hyp_campaign
+from vlib import fuzz as F
 from checks.c01 import _fix_edges
 
 PROPERTY = "C12"
@@ -160,8 +161,8 @@ def _nontrivial(case):
 
 
 PANEL_HOSTS = ["example.com", "Example.COM", "bbc.co.uk", "a.b.x.kawasaki.jp", "city.kawasaki.jp", "foo.unknowntld",
-               "xn--9ca.fr", "é.fr", "localhost", "127.0.0.1"] + IPV6
-PANEL_AUTH = ["", "user@", "user:pw@", ":pw@", "user:@", "u:p:w@"]
+               "xn--9ca.fr", "é.fr", "localhost", "127.0.0.1", "example.com.", "www.bbc.co.uk."] + IPV6
+PANEL_AUTH = ["", "user@", "user:pw@", ":pw@", "user:@", "u:p:w@", "john@doe.com:p@w@", "a@b@"]   # the last '@' ends the userinfo
 PANEL_PORT = ["", ":8080", ":80", ":", ":0", ":0080"]
 PANEL_PATH = ["", "/", "/a", "/a/", "/a//b", "//a", "/a:b/@c", "/a/./../b"]
 PANEL_TAIL = ["", "?", "?q=1&r=a:b@c", "#", "#f/g", "?q#f", "?a=b?c#d?e"]
@@ -187,8 +188,27 @@ def _panel(acc, shard, nshards, seed, tier):
                                 acc.check(case, True, _features(case) if idx % 37 == 0 else (), distinct=True)
 
 
+def _fuzz_lru(data):
+    u = F.parseable_url_from_bytes(data)
+    if u is None or "|" in u or any(c.isspace() or ord(c) < 0x20 or 0x7f <= ord(c) <= 0x9f for c in u):
+        return None   # the statement excludes '|'; whitespace / control characters are not part of a URL (the LRU functions do no cleaning)
+    try:
+        host = F._urlsplit(u if _PROTO.match(u) else "http://" + u).hostname or ""
+    except ValueError:
+        return None
+    if "" in (host[:-1] if host.endswith(".") else host).split("."):
+        return None   # empty inner / leading labels: not a hostname (a single trailing root dot is)
+    form = "slashes" if u.startswith("//") else "explicit" if _PROTO.match(u) else "absent"
+    return {"kind": "lru", "url": u, "scheme_form": form, "suffix_aware": bool(len(data) & 1)}
+
+
+FUZZ_TARGETS = {"lru": (_fuzz_lru, lambda c: True, None)}
+
+
 def campaigns(tier, seed):
     return [
+        Campaign("coverage-guided", F.fuzz_campaign("lru", runs=(2500, 150000), max_len=72, dictionary=F.URL_DICT + ["co.uk", "kawasaki.jp", "blogspot.com", ":", "@", ";"], corpus=F.URL_CORPUS), "atheris",
+                 bounds="libFuzzer over UTF-8 strings <= 72 bytes that parse, without '|', whitespace or control characters x suffix_aware"),
         Campaign("shape-panel", _panel, "enumeration", exhaustive=True,
                  bounds="5 scheme forms x 6 userinfo x 16 hosts x 4 ports x 8 paths x 7 query/fragment tails x suffix_aware"),
         Campaign("grammar", hyp_campaign(_strategy, _to_case, _nontrivial, _features, examples=(1000, 20000)),
